@@ -91,11 +91,15 @@ def _pairing_dispatch(ctx, P):
         else:
             ctx.ok("R10.1", inst, "input * metric(input) -> stencil -> result / metric(result)")
     # several axes, each with its own request: the weights of an axis are the ones given for *that* axis
-    for name, mw, want in (("per-axis mapping with different axes per axis", {AX: (AX,), AY: (AY, AX)}, [("mult", (AX,)), ("UFUNC",), ("div", (AX,)), ("mult", (AY, AX)), ("UFUNC",), ("div", (AY, AX))]),
-                           ("per-axis mapping, only the second axis weighted", {AX: None, AY: (AY,)}, [("UFUNC",), ("mult", (AY,)), ("UFUNC",), ("div", (AY,))])):
+    both = [("mult", (AX,)), ("UFUNC",), ("div", (AX,)), ("mult", (AY, AX)), ("UFUNC",), ("div", (AY, AX))]
+    for name, mw, want, axis_arg in (("per-axis mapping with different axes per axis", {AX: (AX,), AY: (AY, AX)}, both, [AX, AY]),
+                                     ("per-axis mapping, only the second axis weighted", {AX: None, AY: (AY,)}, [("UFUNC",), ("mult", (AY,)), ("UFUNC",), ("div", (AY,))], [AX, AY]),
+                                     # a mapping is keyed by axis: the order of its entries and entries for axes not operated on are immaterial
+                                     ("per-axis mapping listing the axes in another order than `axis`", {AY: (AY, AX), AX: (AX,)}, both, [AX, AY]),
+                                     ("per-axis mapping naming more axes than are operated on", {AX: (AX,), AY: (AY, AX)}, [("mult", (AY, AX)), ("UFUNC",), ("div", (AY, AX))], [AY])):
         inst = f"dispatch over two axes, {name}"
         try:
-            outs = run_dispatch(P, "interp", {"AX": "center", "AY": "center"}, "left", axnames=("AX", "AY"), axis_arg=[AX, AY], metric_weighted=copy.deepcopy(mw))
+            outs = run_dispatch(P, "interp", {"AX": "center", "AY": "center"}, "left", axnames=("AX", "AY"), axis_arg=list(axis_arg), metric_weighted=copy.deepcopy(mw))
         except Unmodelled as e:
             ctx.unknown("R10.1", inst, str(e))
             continue
@@ -164,11 +168,14 @@ def _pairing_cumsum_two_axes(ctx, P):
     """cumsum over two axes with a request per axis: each axis is weighted by what was asked for *it*, and every metric is
     looked up for the array as it stands at that moment (after the first axis the data lies at another position)."""
     fi = P.func("grid:Grid.cumsum")
-    for name, mw, want in (("a different request per axis", {AX: (AX,), AY: (AY, AX)}, [("mult", (AX,)), ("cumsum",), ("div", (AX,)), ("mult", (AY, AX)), ("cumsum",), ("div", (AY, AX))]),
-                           ("only the second axis weighted", {AX: None, AY: (AY,)}, [("cumsum",), ("mult", (AY,)), ("cumsum",), ("div", (AY,))])):
+    both = [("mult", (AX,)), ("cumsum",), ("div", (AX,)), ("mult", (AY, AX)), ("cumsum",), ("div", (AY, AX))]
+    for name, mw, want, axis_arg in (("a different request per axis", {AX: (AX,), AY: (AY, AX)}, both, [AX, AY]),
+                                     ("only the second axis weighted", {AX: None, AY: (AY,)}, [("cumsum",), ("mult", (AY,)), ("cumsum",), ("div", (AY,))], [AX, AY]),
+                                     ("the mapping lists the axes in another order than `axis`", {AY: (AY, AX), AX: (AX,)}, both, [AX, AY]),
+                                     ("the mapping names more axes than are summed", {AX: (AX,), AY: (AY, AX)}, [("mult", (AY, AX)), ("cumsum",), ("div", (AY, AX))], [AY])):
         inst = f"cumsum over two axes with metric_weighted, {name}"
         try:
-            outs = _run_cumsum(P, "center", "left", axnames=("AX", "AY"), axis_arg=[AX, AY], mw=copy.deepcopy(mw))
+            outs = _run_cumsum(P, "center", "left", axnames=("AX", "AY"), axis_arg=list(axis_arg), mw=copy.deepcopy(mw))
         except Unmodelled as e:
             ctx.unknown("R10.1", inst, str(e))
             continue
